@@ -453,4 +453,243 @@ pub(crate) mod verif_array {
     //@ desc="filter: collection evaluated once against the outer data, expression once per element with the element itself as data, in order; result = exactly the elements whose value is truthy, unchanged, in order; null collection is empty, other non-arrays and failing evaluations are errors"
     mapfilter_harness!(k_c13_filter_new_3_p7, false, 0, 3, 7);
 //@END-GENERATED-MAPFILTER
+
+    // =====================================================================================
+    // C15: merge - one-level splice
+    // =====================================================================================
+    /// shape digits (base 4) per operand: 0 = scalar number, 1 = [] , 2 = [x, y], 3 = [[z]] (nested array stays an element)
+    pub(crate) fn body_merge(n: usize, shape: u32) {
+        let u: [u64; 8] = [kani::any(), kani::any(), kani::any(), kani::any(), kani::any(), kani::any(), kani::any(), kani::any()];
+        let mut vals: Vec<MD<Value>> = Vec::with_capacity(4);
+        // expected flat output as (kind, payload): kind 0 = number payload, 1 = a nested array (one element)
+        let mut want_kind = [0u8; 8];
+        let mut want_val = [0u64; 8];
+        let mut wn = 0;
+        let mut i = 0;
+        let mut sh = shape;
+        while i < n {
+            let d = sh % 4;
+            sh /= 4;
+            let v = match d {
+                0 => {
+                    want_kind[wn] = 0;
+                    want_val[wn] = u[2 * i];
+                    wn += 1;
+                    num(u[2 * i])
+                }
+                1 => Value::Array(Vec::new()),
+                2 => {
+                    want_kind[wn] = 0;
+                    want_val[wn] = u[2 * i];
+                    want_kind[wn + 1] = 0;
+                    want_val[wn + 1] = u[2 * i + 1];
+                    wn += 2;
+                    Value::Array(vec![num(u[2 * i]), num(u[2 * i + 1])])
+                }
+                _ => {
+                    want_kind[wn] = 1;
+                    wn += 1;
+                    Value::Array(vec![Value::Array(vec![num(u[2 * i])])])
+                }
+            };
+            vals.push(MD::new(v));
+            i += 1;
+        }
+        let vals = MD::new(vals);
+        let mut items: Vec<&Value> = Vec::with_capacity(4);
+        let mut i = 0;
+        while i < n {
+            items.push(&*vals[i]);
+            i += 1;
+        }
+        let items = MD::new(items);
+        let r = MD::new(merge(&items));
+        kani::cover!(true, "returned");
+        match &*r {
+            Ok(Value::Array(out)) => {
+                assert!(out.len() == wn, "merge: result length must be the sum of the array lengths plus the number of non-array operands");
+                let mut j = 0;
+                while j < wn {
+                    if want_kind[j] == 0 {
+                        assert!(matches!(&out[j], Value::Number(x) if x.as_u64() == Some(want_val[j])), "merge: elements in operand order, array operands spliced exactly one level");
+                    } else {
+                        assert!(matches!(&out[j], Value::Array(_)), "merge: a nested array stays a single element (one level only)");
+                    }
+                    j += 1;
+                }
+            }
+            _ => assert!(false, "merge always returns an array"),
+        }
+    }
+    macro_rules! merge_harness {
+        ($name:ident, $n:expr, $shape:expr) => {
+            #[cfg_attr(kani, kani::proof)]
+            #[cfg_attr(kani, kani::unwind(8))]
+            #[cfg_attr(kani, kani::stub(<serde_json::Value as std::clone::Clone>::clone, crate::verif_support::value_clone_shallow))]
+            #[cfg_attr(kani, kani::stub(std::fmt::format, crate::verif_support::fmt_stub))]
+            pub(crate) fn $name() {
+                body_merge($n, $shape);
+            }
+        };
+    }
+//@GENERATED-MERGE
+    //@ob name=C15.merge.none harness=k_c15_merge_none props=C15,C01 tier=quick strength=bounded bound="operand shapes (); element values symbolic" fns=op::array::merge stubs=2 timeout=300 cutdrop=3 group=medium
+    //@ desc="merge: concatenation in operand order, array operands spliced exactly one level (a nested array stays one element), every other value one element; length law"
+    merge_harness!(k_c15_merge_none, 0, 0);
+    //@ob name=C15.merge.scalar harness=k_c15_merge_scalar props=C15,C01 tier=quick strength=bounded bound="operand shapes (scalar); element values symbolic" fns=op::array::merge stubs=2 timeout=300 cutdrop=3 group=medium
+    //@ desc="merge: concatenation in operand order, array operands spliced exactly one level (a nested array stays one element), every other value one element; length law"
+    merge_harness!(k_c15_merge_scalar, 1, 0);
+    //@ob name=C15.merge.pair harness=k_c15_merge_pair props=C15,C01 tier=quick strength=bounded bound="operand shapes (pair); element values symbolic" fns=op::array::merge stubs=2 timeout=300 cutdrop=3 group=medium
+    //@ desc="merge: concatenation in operand order, array operands spliced exactly one level (a nested array stays one element), every other value one element; length law"
+    merge_harness!(k_c15_merge_pair, 1, 2);
+    //@ob name=C15.merge.pair_scalar harness=k_c15_merge_pair_scalar props=C15,C01 tier=quick strength=bounded bound="operand shapes (pair, scalar); element values symbolic" fns=op::array::merge stubs=2 timeout=300 cutdrop=3 group=medium
+    //@ desc="merge: concatenation in operand order, array operands spliced exactly one level (a nested array stays one element), every other value one element; length law"
+    merge_harness!(k_c15_merge_pair_scalar, 2, 2);
+    //@ob name=C15.merge.nested harness=k_c15_merge_nested props=C15,C01 tier=quick strength=bounded bound="operand shapes (nested); element values symbolic" fns=op::array::merge stubs=2 timeout=300 cutdrop=3 group=medium
+    //@ desc="merge: concatenation in operand order, array operands spliced exactly one level (a nested array stays one element), every other value one element; length law"
+    merge_harness!(k_c15_merge_nested, 1, 3);
+    //@ob name=C15.merge.empty_pair harness=k_c15_merge_empty_pair props=C15,C01 tier=thorough strength=bounded bound="operand shapes (empty, pair); element values symbolic" fns=op::array::merge stubs=2 timeout=300 cutdrop=3 group=medium
+    //@ desc="merge: concatenation in operand order, array operands spliced exactly one level (a nested array stays one element), every other value one element; length law"
+    merge_harness!(k_c15_merge_empty_pair, 2, 9);
+    //@ob name=C15.merge.scalar_pair_nested harness=k_c15_merge_scalar_pair_nested props=C15,C01 tier=thorough strength=bounded bound="operand shapes (scalar, pair, nested); element values symbolic" fns=op::array::merge stubs=2 timeout=300 cutdrop=3 group=medium
+    //@ desc="merge: concatenation in operand order, array operands spliced exactly one level (a nested array stays one element), every other value one element; length law"
+    merge_harness!(k_c15_merge_scalar_pair_nested, 3, 56);
+    //@ob name=C15.merge.pair_pair harness=k_c15_merge_pair_pair props=C15,C01 tier=thorough strength=bounded bound="operand shapes (pair, pair); element values symbolic" fns=op::array::merge stubs=2 timeout=300 cutdrop=3 group=medium
+    //@ desc="merge: concatenation in operand order, array operands spliced exactly one level (a nested array stays one element), every other value one element; length law"
+    merge_harness!(k_c15_merge_pair_pair, 2, 10);
+//@END-GENERATED-MERGE
+
+    // =====================================================================================
+    // C15: in_ - null => false; string haystack => both strings (substring); array => membership under
+    // NUMERIC equality of numbers; anything else => error
+    // =====================================================================================
+    /// mathematical equality of two JSON numbers (integers exactly, doubles exactly)
+    pub(crate) fn spec_num_eq(a: &Number, b: &Number) -> bool {
+        let ai: Option<i128> = a.as_i64().map(|x| x as i128).or(a.as_u64().map(|x| x as i128));
+        let bi: Option<i128> = b.as_i64().map(|x| x as i128).or(b.as_u64().map(|x| x as i128));
+        match (ai, bi) {
+            (Some(x), Some(y)) => x == y,
+            (None, None) => a.as_f64().unwrap() == b.as_f64().unwrap(),
+            (Some(x), None) => float_eq_int(b.as_f64().unwrap(), x),
+            (None, Some(y)) => float_eq_int(a.as_f64().unwrap(), y),
+        }
+    }
+    fn float_eq_int(f: f64, i: i128) -> bool {
+        // exact: f is integral, within the i128-safe range of 64-bit integers, and equals i
+        if f != f.trunc() || f < -18446744073709551616.0 || f > 18446744073709551616.0 {
+            return false;
+        }
+        (f as i128) == i
+    }
+    //@ob name=C15.in.number_in_array props=C15,C01 strength=complete fns=op::array::in_ replay=generic stubs=1 timeout=300
+    //@ desc="in(n, [m]) for EVERY pair of JSON numbers (any i64 / u64 / finite f64 spelling): true iff n and m are numerically equal (1, 1.0 and 1e0 are the same element; 0 and -0 too)"
+    #[cfg_attr(kani, kani::proof)]
+    #[cfg_attr(kani, kani::unwind(4))]
+    #[cfg_attr(kani, kani::stub(std::fmt::format, crate::verif_support::fmt_stub))]
+    pub(crate) fn k_c15_in_number_in_array() {
+        let a = any_number();
+        let b = any_number();
+        let expect = spec_num_eq(&a, &b);
+        let needle = MD::new(Value::Number(a));
+        let hay = MD::new(Value::Array(vec![Value::Number(b)]));
+        #[cfg(verif_replay)]
+        eprintln!("REPLAY-INPUT: in({}, {})", &*needle, &*hay);
+        let mut items: Vec<&Value> = Vec::with_capacity(2);
+        items.push(&*needle);
+        items.push(&*hay);
+        let items = MD::new(items);
+        let r = MD::new(in_(&items));
+        kani::cover!(matches!(&*r, Ok(Value::Bool(true))));
+        kani::cover!(matches!(&*r, Ok(Value::Bool(false))));
+        assert!(matches!(&*r, Ok(Value::Bool(x)) if *x == expect), "in: numerically equal numbers are the same element whatever their JSON spelling");
+    }
+    /// hk: haystack kind 0 null, 1 bool, 2 number, 3 object, 4 string(1 symbolic ASCII byte), 5 array [null]
+    /// nk: needle kind 0 null, 1 bool, 2 number, 3 string (1 symbolic ASCII byte), 4 array []
+    pub(crate) fn body_in_dispatch(nk: u8, hk: u8) {
+        let needle = MD::new(match nk {
+            0 => Value::Null,
+            1 => Value::Bool(kani::any()),
+            2 => Value::Number(any_number()),
+            3 => Value::String(any_ascii_string::<1>()),
+            _ => Value::Array(Vec::new()),
+        });
+        let hay = MD::new(match hk {
+            0 => Value::Null,
+            1 => Value::Bool(kani::any()),
+            2 => Value::Number(any_number()),
+            3 => Value::Object(Map::new()),
+            4 => Value::String(any_ascii_string::<1>()),
+            _ => Value::Array(vec![Value::Null]),
+        });
+        #[cfg(verif_replay)]
+        eprintln!("REPLAY-INPUT: in({}, {})", &*needle, &*hay);
+        let mut items: Vec<&Value> = Vec::with_capacity(2);
+        items.push(&*needle);
+        items.push(&*hay);
+        let items = MD::new(items);
+        let r = MD::new(in_(&items));
+        kani::cover!(true, "returned");
+        match hk {
+            0 => assert!(matches!(&*r, Ok(Value::Bool(false))), "in: a null haystack contains nothing"),
+            1 | 2 | 3 => assert!(r.is_err(), "in: the second operand must be an array, a string or null"),
+            4 => {
+                if nk == 3 {
+                    let same = match (&*needle, &*hay) {
+                        (Value::String(a), Value::String(b)) => a.as_bytes()[0] == b.as_bytes()[0],
+                        _ => false,
+                    };
+                    assert!(matches!(&*r, Ok(Value::Bool(x)) if *x == same), "in: substring containment on strings");
+                } else {
+                    assert!(r.is_err(), "in: with a string haystack the needle must be a string");
+                }
+            }
+            _ => assert!(matches!(&*r, Ok(Value::Bool(x)) if *x == (nk == 0)), "in: membership in [null]"),
+        }
+    }
+    macro_rules! in_harness {
+        ($name:ident, $nk:expr, $hk:expr) => {
+            #[cfg_attr(kani, kani::proof)]
+            #[cfg_attr(kani, kani::unwind(6))]
+            #[cfg_attr(kani, kani::stub(<serde_json::Value as std::clone::Clone>::clone, crate::verif_support::value_clone_shallow))]
+            #[cfg_attr(kani, kani::stub(std::fmt::format, crate::verif_support::fmt_stub))]
+            pub(crate) fn $name() {
+                body_in_dispatch($nk, $hk);
+            }
+        };
+    }
+//@GENERATED-IN
+    //@ob name=C15.in.num_in_null harness=k_c15_in_num_in_null props=C15,C01 tier=quick strength=complete fns=op::array::in_ stubs=2 replay=generic timeout=200
+    //@ desc="in(needle: num, haystack: null): null haystack => false; string haystack => both strings, substring; array => membership; any other haystack => error"
+    in_harness!(k_c15_in_num_in_null, 2, 0);
+    //@ob name=C15.in.str_in_null harness=k_c15_in_str_in_null props=C15,C01 tier=thorough strength=bounded bound="strings of one symbolic ASCII byte" fns=op::array::in_ stubs=2 replay=generic timeout=200
+    //@ desc="in(needle: str, haystack: null): null haystack => false; string haystack => both strings, substring; array => membership; any other haystack => error"
+    in_harness!(k_c15_in_str_in_null, 3, 0);
+    //@ob name=C15.in.num_in_bool harness=k_c15_in_num_in_bool props=C15,C01 tier=thorough strength=complete fns=op::array::in_ stubs=2 replay=generic timeout=200
+    //@ desc="in(needle: num, haystack: bool): null haystack => false; string haystack => both strings, substring; array => membership; any other haystack => error"
+    in_harness!(k_c15_in_num_in_bool, 2, 1);
+    //@ob name=C15.in.str_in_num harness=k_c15_in_str_in_num props=C15,C01 tier=quick strength=bounded bound="strings of one symbolic ASCII byte" fns=op::array::in_ stubs=2 replay=generic timeout=200
+    //@ desc="in(needle: str, haystack: num): null haystack => false; string haystack => both strings, substring; array => membership; any other haystack => error"
+    in_harness!(k_c15_in_str_in_num, 3, 2);
+    //@ob name=C15.in.null_in_obj harness=k_c15_in_null_in_obj props=C15,C01 tier=quick strength=complete fns=op::array::in_ stubs=2 replay=generic timeout=200
+    //@ desc="in(needle: null, haystack: obj): null haystack => false; string haystack => both strings, substring; array => membership; any other haystack => error"
+    in_harness!(k_c15_in_null_in_obj, 0, 3);
+    //@ob name=C15.in.str_in_str harness=k_c15_in_str_in_str props=C15,C01 tier=quick strength=bounded bound="strings of one symbolic ASCII byte" fns=op::array::in_ stubs=2 replay=generic timeout=200
+    //@ desc="in(needle: str, haystack: str): null haystack => false; string haystack => both strings, substring; array => membership; any other haystack => error"
+    in_harness!(k_c15_in_str_in_str, 3, 4);
+    //@ob name=C15.in.num_in_str harness=k_c15_in_num_in_str props=C15,C01 tier=quick strength=bounded bound="strings of one symbolic ASCII byte" fns=op::array::in_ stubs=2 replay=generic timeout=200
+    //@ desc="in(needle: num, haystack: str): null haystack => false; string haystack => both strings, substring; array => membership; any other haystack => error"
+    in_harness!(k_c15_in_num_in_str, 2, 4);
+    //@ob name=C15.in.arr_in_str harness=k_c15_in_arr_in_str props=C15,C01 tier=thorough strength=bounded bound="strings of one symbolic ASCII byte" fns=op::array::in_ stubs=2 replay=generic timeout=200
+    //@ desc="in(needle: arr, haystack: str): null haystack => false; string haystack => both strings, substring; array => membership; any other haystack => error"
+    in_harness!(k_c15_in_arr_in_str, 4, 4);
+    //@ob name=C15.in.null_in_arr harness=k_c15_in_null_in_arr props=C15,C01 tier=quick strength=complete fns=op::array::in_ stubs=2 replay=generic timeout=200
+    //@ desc="in(needle: null, haystack: arr): null haystack => false; string haystack => both strings, substring; array => membership; any other haystack => error"
+    in_harness!(k_c15_in_null_in_arr, 0, 5);
+    //@ob name=C15.in.num_in_arr harness=k_c15_in_num_in_arr props=C15,C01 tier=quick strength=complete fns=op::array::in_ stubs=2 replay=generic timeout=200
+    //@ desc="in(needle: num, haystack: arr): null haystack => false; string haystack => both strings, substring; array => membership; any other haystack => error"
+    in_harness!(k_c15_in_num_in_arr, 2, 5);
+    //@ob name=C15.in.bool_in_arr harness=k_c15_in_bool_in_arr props=C15,C01 tier=thorough strength=complete fns=op::array::in_ stubs=2 replay=generic timeout=200
+    //@ desc="in(needle: bool, haystack: arr): null haystack => false; string haystack => both strings, substring; array => membership; any other haystack => error"
+    in_harness!(k_c15_in_bool_in_arr, 1, 5);
+//@END-GENERATED-IN
 }
